@@ -55,7 +55,9 @@ def to_sweeps(sweepable: Sweepable, metadata: dict | None = None) -> list[Sweep]
     if isinstance(sweepable, Sweep):
         return [sweepable]
     if isinstance(sweepable, dict):
-        if any(isinstance(val, Sequence) for val in sweepable.values()):
+        if any(
+            isinstance(val, Sequence) and not isinstance(val, str) for val in sweepable.values()
+        ):
             warnings.warn(
                 'Implicit expansion of a dictionary into a Cartesian product '
                 'of sweeps is deprecated and will be removed in cirq 0.10. '
